@@ -1012,6 +1012,112 @@ class vc_set(set, metaclass=_ShimMeta):
     return len(self) > 0
 
 
+def _has_symbolic(key):
+  if _real_isinstance(key, Proxy):
+    return True
+  if _real_isinstance(key, tuple):
+    return any(_has_symbolic(k) for k in key)
+  return False
+
+
+class vc_dict(dict, metaclass=_ShimMeta):
+  """`dict(...)` inside rewritten modules.  Keys without symbolic parts live in the real dict.  A key that is a symbolic number, or a
+  tuple that holds one, cannot be hashed: such keys are kept in an association list and compared by VALUE (`==`, which forks on every
+  symbolic comparison), so that on every path a lookup finds exactly the entry a real dict would find.  Supported with symbolic keys:
+  [] / get / in / setdefault / len / iteration / keys / values / items / bool; everything else raises Unsupported."""
+  __real__ = dict
+
+  def __init__(self, *a, **k):
+    dict.__init__(self)
+    self._sym = []          # [[key, value]]
+    for key, val in dict.items(dict(*a, **k)):
+      self[key] = val
+
+  def _find(self, key):
+    """-> ("real", key) | ("sym", index) | None"""
+    if not _has_symbolic(key):
+      if not self._sym:
+        return ("real", key) if dict.__contains__(self, key) else None
+      if dict.__contains__(self, key):
+        return ("real", key)
+    else:
+      for k2 in list(dict.keys(self)):
+        if k2 == key:
+          return ("real", k2)
+    for i, (k2, _v) in enumerate(self._sym):
+      if k2 == key:
+        return ("sym", i)
+    return None
+
+  def __setitem__(self, key, val):
+    hit = self._find(key)
+    if hit is None:
+      if _has_symbolic(key):
+        self._sym.append([key, val])
+      else:
+        dict.__setitem__(self, key, val)
+    elif hit[0] == "real":
+      dict.__setitem__(self, hit[1], val)
+    else:
+      self._sym[hit[1]][1] = val
+
+  def __getitem__(self, key):
+    hit = self._find(key)
+    if hit is None:
+      raise KeyError(key)
+    return dict.__getitem__(self, hit[1]) if hit[0] == "real" else self._sym[hit[1]][1]
+
+  def get(self, key, default=None):
+    hit = self._find(key)
+    if hit is None:
+      return default
+    return dict.__getitem__(self, hit[1]) if hit[0] == "real" else self._sym[hit[1]][1]
+
+  def setdefault(self, key, default=None):
+    hit = self._find(key)
+    if hit is None:
+      self[key] = default
+      return default
+    return dict.__getitem__(self, hit[1]) if hit[0] == "real" else self._sym[hit[1]][1]
+
+  def __contains__(self, key):
+    return self._find(key) is not None
+
+  def __len__(self):
+    return dict.__len__(self) + len(self._sym)
+
+  def __bool__(self):
+    return len(self) > 0
+
+  def __iter__(self):
+    yield from dict.__iter__(self)
+    for k, _v in self._sym:
+      yield k
+
+  def keys(self):
+    return list(iter(self))
+
+  def values(self):
+    return list(dict.values(self)) + [v for _k, v in self._sym]
+
+  def items(self):
+    return list(dict.items(self)) + [(k, v) for k, v in self._sym]
+
+
+def _guard_dict_method(name):
+  real = getattr(dict, name)
+
+  def method(self, *a, **k):
+    if self._sym or any(_has_symbolic(x) for x in a):
+      raise Unsupported(f"dict.{name} with symbolic keys")
+    return real(self, *a, **k)
+  return method
+
+
+for _n in ("pop", "popitem", "update", "clear", "copy", "__delitem__", "__eq__", "__ne__", "__or__", "__ior__"):
+  setattr(vc_dict, _n, _guard_dict_method(_n))
+
+
 def _guard_set_method(name):
   real = getattr(set, name)
 
